@@ -8,3 +8,5 @@ import UberjobModel.Props.C07
 #print axioms Uberjob.Engine.C07_kahn_sound
 #print axioms Uberjob.Engine.C07_acyclic_first
 #print axioms Uberjob.Engine.C07_skeleton
+#print axioms Uberjob.Engine.C07_fine_terminates
+#print axioms Uberjob.Engine.C07_fine_no_deadlock
